@@ -38,7 +38,7 @@ class N2W(Module):
         from litex.soc.interconnect import wishbone
         from litedram.common import LiteDRAMNativePort
         from litedram.frontend.wishbone import LiteDRAMNative2Wishbone
-        self.wb = wishbone.Interface(data_width=cfg["bus_dw"], adr_width=30, addressing=cfg.get("addressing", "word"))
+        self.wb = wishbone.Interface(data_width=cfg["bus_dw"], adr_width=32, addressing=cfg.get("addressing", "word"))
         self.port = LiteDRAMNativePort("both", address_width=cfg.get("aw", 20), data_width=cfg["port_dw"])
         self.submodules.bridge = LiteDRAMNative2Wishbone(self.port, self.wb, base_address=cfg.get("base", 0))
 
@@ -330,7 +330,9 @@ def oracle_n2w(cfg, stim, r):
 def n2w_stim(draw, cfg, max_ops):
     dw = cfg["port_dw"]
     full = (1 << (dw // 8)) - 1
-    pool = [draw(st.integers(0, 1023)) for _ in range(draw(st.integers(1, 4)))]
+    top = (1 << cfg.get("aw", 20)) - 1      # "any base address", all addresses of the native port: bottom, top and middle of its range
+    pool = [draw(st.one_of(st.integers(0, min(top, 1023)), st.integers(0, top), st.sampled_from([top, top - 1, (top + 1) // 2, (top + 1) // 2 - 1, (top + 1) // 4 * 3])))
+            for _ in range(draw(st.integers(1, 4)))]
     ops = []
     for _ in range(draw(st.integers(1, max_ops))):
         we = draw(st.integers(0, 1))
@@ -348,8 +350,8 @@ def devices():
         for base in (0, 0x10000000):
             out.append(dict(kind="w2n", bus_dw=bus, port_dw=port, base=base))
     for addressing in ("word", "byte"):
-        for base in (0, 0x4000):
-            out.append(dict(kind="n2w", bus_dw=32, port_dw=32, addressing=addressing, base=base))
+        for base, aw in ((0, 20), (0x4000, 20), (0x40000000, 24), (0x80000000, 10), (0x10000000, 26 if addressing == "word" else 24)):
+            out.append(dict(kind="n2w", bus_dw=32, port_dw=32, addressing=addressing, base=base, aw=aw))
     return out
 
 
